@@ -21,10 +21,10 @@ META = {
         "dequeued task exactly once, an idle worker retires only when the other idle workers outnumber the waiting tasks, and every "
         "queued task is counted, so a notification accepted by the pool is not left without a worker by the accounting; C04.9 some "
         "layer of the dispatcher catches every exception of the callable, BaseException included: a notification whose method raises "
-        "SystemExit / KeyboardInterrupt is not answered by the HTTP layer's error object."),
+        "SystemExit / KeyboardInterrupt is not answered by the HTTP layer's error object.; C04.10 (shared) a 1.0 notification (`id`: null) is accepted by validate_request (imported C05.6) and the looked-up callable - also one found on a registered instance - is invoked exactly once (imported C01.3)"),
     "does_not_decide": "that an enqueued notification is eventually executed exactly once by the pool under "
                        "every interleaving (schedule-quantified; C09 covers the pool's structural discipline).",
-    "rules": {
+    "rules": {"C04.10": "imported C05.6, C01.3", 
         "C04.1": "fact-consistent state exploration of the dispatcher CFG with a dispatch-event counter",
         "C04.2": "same exploration, forking on the notification predicate; return node must be literal None",
         "C04.3": "abstract evaluation of the predicate expression over representative id classes vs spec table A.5",
@@ -312,3 +312,9 @@ def check(ck):
                "neither _dispatch nor _marshaled_single_dispatch catches a non-Exception BaseException raised by the method of a notification "
                "(SystemExit, KeyboardInterrupt, GeneratorExit): it escapes to the request handler, which answers the notification with an "
                "error object (HTTP 500)", "jsonrpclib/SimpleJSONRPCServer.py")
+
+    # ---- C04.10 shared clauses --------------------------------------------------------------------------------------
+    from rules import c05 as _c05, c01 as _c01
+    _common.import_rules(ck, _c05, {"C05.6": "C04.10"})
+    _common.import_rules(ck, _c01, {"C01.3": "C04.10"})
+    ck.floor("C04.10", 6)
